@@ -56,6 +56,10 @@ def plan(prop):
     if prop == 'C16':
         for n in ((2, 3) if Q else (2, 3, 4)):
             obs.append((core, lambda ctx, n=n: co.ob_time_aware_provider(ctx, n)))
+    if prop == 'C15':
+        import ieee_obligations as io
+        for la, lb in (((1, 1), (2, 2), (1, 2)) if Q else ((1, 1), (2, 2), (1, 2), (2, 1), (3, 3), (3, 1))):
+            obs.append((core, lambda ctx, la=la, lb=lb: io.ob_reducer(ctx, la, lb)))
     if prop == 'C18':
         import ieee_obligations as io
         obs.append(('rosomaxa', lambda ctx: io.ob_max_generation(ctx)))
